@@ -28,7 +28,8 @@ inductive Visit
   | extern (p : APath) (defs : List ExtDef)
   /-- an `@import` line (or the root) enters a file that is not valid UTF-8 -/
   | undecodable (p : APath) (pos : Pos)
-  /-- an `@import` line (or the root) enters something that is not IDL text inside the grammar -/
+  /-- an `@import` line (or the root) enters something that is not IDL text inside the grammar (or the search is
+      cut off there) -/
   | broken (p : APath)
 deriving Inhabited
 
@@ -52,9 +53,11 @@ def visitStep (cfg : Cfg) (fs : FS) (rec : List APath → APath → APath → Vi
       | some (.ext defs) => (acc.1, acc.2 ++ [.extern p defs])
       | _ => acc
 
-/-- the import tree below `file`, depth first, load lines in textual order: `(visited, visits)` -/
+/-- the import tree below `file`, depth first, load lines in textual order: `(visited, visits)`. The recursion is
+    bounded by `fuel`; where it is cut off the file counts as `broken` (this never happens with the fuel of
+    `rootVisits`: every nested call enters a file of the finite file system that was not entered before). -/
 def visitOrder (cfg : Cfg) (fs : FS) : Nat → List APath → APath → APath → VisitAcc → VisitAcc
-  | 0, _, _, _, acc => acc
+  | 0, _, file, _, acc => (acc.1, acc.2 ++ [.broken file])
   | fuel + 1, stack, file, spelled, acc =>
     match fs.get file with
     | some (.idl text) =>
